@@ -8,3 +8,9 @@ let () = register_backend "kotlin" (fun cfg pd ->
             Model.kt_no_version_header = cfg_bool cfg "no_version_header" true;
             Model.kt_version = cfg_str cfg "version" } in
   Model.kt_generate uc c pd)
+let () = register_decls "kotlin" (fun cfg pd ->
+  let c = { Model.kt_package = cfg_str cfg "package"; Model.kt_module_name = cfg_str cfg "module_name";
+            Model.kt_prefix = cfg_str cfg "prefix"; Model.kt_type_mappings = cfg_map cfg "type_mappings";
+            Model.kt_no_version_header = cfg_bool cfg "no_version_header" true;
+            Model.kt_version = cfg_str cfg "version" } in
+  Model.kt_file_decls uc c pd)
